@@ -580,10 +580,10 @@ theorem find_subtree (s : String) (q : Path) (t : Dir) :
 /-- a bucket key has exactly three items: Symbol/Timeframe/AttributeGroup -/
 def Key3 (items : List String) : Prop := items.length = 3
 
-theorem addTimeBucket_inv {items cats : List String} {y : Int} {sch : Nat} {st st' : St} {res : Res}
-    (I : Inv st) (h3 : items.length = 3) (h : addTimeBucket items cats y sch st = (st', res))
+theorem addTimeBucketBody_inv {items cats : List String} {y : Int} {sch : Nat} {st st' : St} {res : Res}
+    (I : Inv st) (h3 : items.length = 3) (h : addTimeBucketBody items cats y sch st = (st', res))
     (hres : res = .ok ∨ res = .exists_) : Inv st' := by
-  unfold addTimeBucket at h
+  unfold addTimeBucketBody at h
   cases hl : atbLoop [] items cats st.disk with
   | mk d1 oe =>
     cases oe with
@@ -699,6 +699,118 @@ theorem addTimeBucket_inv {items cats : List String} {y : Int} {sch : Nat} {st s
                   rw [I.same p, ← hfr]
                   cases find p d3 <;> rfl
 
+
+/-! ## the read-only pass of the repaired `AddTimeBucket` -/
+
+/-- at or below `p`, every directory of `d` is either unchanged from `d0` or has no category yet -/
+def FreshBelow (p : Path) (d0 d : Dir) : Prop :=
+  ∀ q r, isPre p q = true → find q d = some r → r.cat = none ∨ find q d0 = some r
+
+theorem wcnf_ok_of_check {c : String} {p : Path} {d0 d : Dir} {r : Rec}
+    (hc : checkCategoryNameFile c p d0 = true) (hr : find p d = some r)
+    (hf : r.cat = none ∨ find p d0 = some r) :
+    ∃ d2, writeCategoryNameFile c p d = some d2 := by
+  unfold writeCategoryNameFile
+  simp only [hr]
+  cases hcat : r.cat with
+  | none => exact ⟨_, rfl⟩
+  | some c' =>
+    rcases hf with h | h
+    · rw [hcat] at h; cases h
+    · unfold checkCategoryNameFile at hc
+      simp only [h, hcat] at hc
+      have : c' = c := by simpa using hc
+      subst this
+      exact ⟨d, by simp⟩
+
+/-- a key accepted by the read-only pass goes through the directory loop and the `Year` check -/
+theorem atbLoop_ok_of_validate (items : List String) : ∀ (pre : Path) (cats : List String) (d0 d : Dir),
+    validateKey pre items cats d0 = none → (find pre d).isSome = true → FreshBelow pre d0 d →
+    ∃ d1 d2, atbLoop pre items cats d = (d1, none) ∧
+      writeCategoryNameFile "Year" (pre ++ items) d1 = some d2 := by
+  induction items with
+  | nil =>
+    intro pre cats d0 d hv hpre hfb
+    obtain ⟨r, hr⟩ := Option.isSome_iff_exists.1 hpre
+    have hc : checkCategoryNameFile "Year" pre d0 = true := by
+      simp only [validateKey] at hv
+      by_cases h : checkCategoryNameFile "Year" pre d0 = true
+      · exact h
+      · simp [h] at hv
+    obtain ⟨d2, h2⟩ := wcnf_ok_of_check hc hr (hfb pre r (isPre_refl pre) hr)
+    exact ⟨d, d2, by simp [atbLoop], by simpa using h2⟩
+  | cons item items ih =>
+    intro pre cats d0 d hv hpre hfb
+    cases cats with
+    | nil => simp [validateKey] at hv
+    | cons c cs =>
+      simp only [validateKey] at hv
+      have hc : checkCategoryNameFile c pre d0 = true := by
+        by_cases h : checkCategoryNameFile c pre d0 = true
+        · exact h
+        · simp [h] at hv
+      simp only [hc, if_true] at hv
+      obtain ⟨r, hr⟩ := Option.isSome_iff_exists.1 hpre
+      have hne : pre ≠ pre ++ [item] := by
+        intro e; have := congrArg List.length e; simp at this
+      have hr1 : find pre (mkdirIfMissing (pre ++ [item]) d) = some r := by
+        rw [find_mkdirIfMissing]; simp [hne, hr]
+      obtain ⟨d2, hw⟩ := wcnf_ok_of_check hc hr1 (hfb pre r (isPre_refl pre) hr)
+      obtain ⟨r', hr', _, hd2⟩ := wcnf_spec hw
+      have hsub2 : (find (pre ++ [item]) d2).isSome = true := by
+        rw [hd2, find_mkdirIfMissing]; simp only [hne.symm, if_false]
+        cases hs : find (pre ++ [item]) d <;> simp
+      have hfb2 : FreshBelow (pre ++ [item]) d0 d2 := by
+        intro q rq hq hfq
+        have hqp : q ≠ pre := by
+          intro e; rw [e] at hq
+          have := isPre_length hq; simp at this; omega
+        rw [hd2, find_mkdirIfMissing] at hfq
+        simp only [hqp, if_false] at hfq
+        by_cases hnew : q = pre ++ [item] ∧ find (pre ++ [item]) d = none
+        · simp only [hnew, and_self, if_true] at hfq
+          injection hfq with hfq; left; rw [← hfq]; rfl
+        · simp only [hnew, if_false] at hfq
+          exact hfb q rq (isPre_trans (isPre_append pre [item]) hq) hfq
+      obtain ⟨d1', d2', h1, h2⟩ := ih (pre ++ [item]) cs d0 d2 hv hsub2 hfb2
+      refine ⟨d1', d2', ?_, by simpa using h2⟩
+      simp only [atbLoop, hw]
+      exact h1
+
+theorem addTimeBucketBody_res_of_validate {items cats : List String} {y : Int} {sch : Nat} {st st' : St} {res : Res}
+    (hw : WF st.disk) (h3 : items.length = 3) (hl : cats.length = items.length)
+    (hv : validateKey [] items cats st.disk = none)
+    (h : addTimeBucketBody items cats y sch st = (st', res)) : res = .ok ∨ res = .exists_ := by
+  obtain ⟨d1, d2, h1, h2⟩ := atbLoop_ok_of_validate items [] cats st.disk st.disk hv hw.root
+    (fun q r _ hq => Or.inr hq)
+  unfold addTimeBucketBody at h
+  simp only [h1] at h
+  have h2' : writeCategoryNameFile "Year" items d1 = some d2 := by simpa using h2
+  simp only [h2'] at h
+  cases hc : createFile items y sch d2 with
+  | none => simp only [hc] at h; injection h with _ h; exact Or.inr h.symm
+  | some d3 =>
+    simp only [hc] at h
+    match items, cats, h3, hl with
+    | s :: _, c0 :: _, _, _ => simp only at h; injection h with _ h; exact Or.inl h.symm
+    | _ :: _, [], _, hl => simp at hl
+
+theorem addTimeBucket_inv {v : Variant} {items cats : List String} {y : Int} {sch : Nat} {st st' : St} {res : Res}
+    (I : Inv st) (hv : v.checkFirst = true) (h3 : items.length = 3)
+    (h : addTimeBucket v items cats y sch st = (st', res)) : Inv st' := by
+  unfold addTimeBucket at h
+  simp only [hv, if_true] at h
+  by_cases hl : cats.length ≠ items.length
+  · rw [if_pos hl] at h; injection h with h _; rw [← h]; exact I
+  · rw [if_neg hl] at h
+    have hl' : cats.length = items.length := by simpa using hl
+    cases hval : validateKey [] items cats st.disk with
+    | some e => simp only [hval] at h; injection h with h _; rw [← h]; exact I
+    | none =>
+      simp only [hval] at h
+      exact addTimeBucketBody_inv I h3 h (addTimeBucketBody_res_of_validate I.wf h3 hl' hval h)
+
+
 /-! ## `RemoveTimeBucket` -/
 
 theorem hasSubDirs_iff (p : Path) (t : Dir) :
@@ -763,127 +875,169 @@ theorem Inv_rmBoth {st : St} (I : Inv st) {p : Path} (hp : p ≠ []) :
   stale := rfl
   wf := WF_removeAll I.wf hp
 
-theorem removeSubDir_eq {st : St} {p : Path} (hs : st.stale = [])
-    (hb : ∀ q, isPre p q = true → q ≠ p → find q st.tree = none) :
-    removeSubDir p st = ⟨removeAll p st.tree, [], st.disk⟩ := by
-  unfold removeSubDir
-  have : st.tree.filter (fun e => isPre p e.1 && e.1 != p && !e.2.files.isEmpty
-      && (find e.1 st.stale).isNone) = [] := by
-    rw [List.filter_eq_nil_iff]
-    rintro ⟨q, r⟩ hm
-    simp only [Bool.and_eq_true, not_and, bne_iff_ne, ne_eq]
-    rintro ⟨⟨h1, h2⟩, _⟩
-    have := hb q h1 h2
-    have hs' := (find_isSome_iff_mem q st.tree).2 ⟨r, hm⟩
-    rw [this] at hs'; simp at hs'
-  rw [this, hs]; simp
 
-/-- under the invariant a Directory without sub-directories has nothing below it -/
-theorem no_strict_below {st : St} (I : Inv st) {p : Path} (h : hasSubDirs p st.tree = false) :
-    ∀ q, isPre p q = true → q ≠ p → find q st.tree = none := by
-  intro q hpq hne
-  cases hq : find q st.tree with
-  | none => rfl
-  | some r =>
-    exfalso
-    obtain ⟨t, rfl⟩ := (isPre_iff p q).1 hpq
-    cases t with
-    | nil => simp at hne
-    | cons x t =>
-      have hchild : (find (p ++ [x]) st.tree).isSome = true := by
-        cases t with
-        | nil => simp [hq]
-        | cons y t' =>
-          rw [I.same] at hq
-          have hv := (visible_iff _ _).1 (I.wf.vis _ r hq) (p.length + 1) (by simp)
-          obtain ⟨ra, hra, _⟩ := hv
-          have e : (p ++ x :: y :: t').take (p.length + 1) = p ++ [x] := by
-            simp [List.take_append, List.take_of_length_le]
-          rw [e] at hra
-          rw [I.same, hra]; rfl
-      have : hasSubDirs p st.tree = true :=
-        (hasSubDirs_iff p st.tree).2 ⟨p ++ [x], by simp, isPre_append p [x], hchild⟩
-      rw [h] at this; cases this
+theorem removeSubDir_deep_eq {st : St} {p : Path} (hs : st.stale = []) :
+    removeSubDir true p st = ⟨removeAll p st.tree, [], st.disk⟩ := by
+  simp [removeSubDir, hs]
 
+theorem walkOK_find (t : Dir) (items : Path) : ∀ n, walkOK t items n = true →
+    ∀ k, k < n → (find (items.take (k + 1)) t).isSome = true := by
+  intro n
+  induction n with
+  | zero => intro _ k hk; omega
+  | succ n ih =>
+    intro h k hk
+    simp only [walkOK, Bool.and_eq_true] at h
+    by_cases hkn : k = n
+    · subst hkn; exact h.1
+    · exact ih h.2 k (by omega)
+
+theorem rtb1 (a : String) (st : St) :
+    rtbLoop true [a] 1 false st =
+      (let s1 := removeDirFiles [a] st
+       if hasSubDirs [a] s1.tree then (s1, true) else (removeDirFiles [a] s1, true)) := by
+  simp only [rtbLoop, List.length_cons, List.length_nil, List.take]
+  simp
+
+theorem rtb2 (a b : String) (st : St) :
+    rtbLoop true [a, b] 2 false st =
+      (let s1 := removeDirFiles [a, b] st
+       let s2 := if hasSubDirs [a, b] s1.tree then s1 else removeDirFiles [a, b] s1
+       let s3 := removeSubDir true [a, b] s2
+       if hasSubDirs [a] s3.tree then (s3, false) else (removeDirFiles [a] s3, true)) := by
+  simp only [rtbLoop, List.length_cons, List.length_nil, List.take]
+  simp
+  split <;> simp_all
 
 theorem rtb3 (a b c : String) (st : St) :
-    rtbLoop [a, b, c] 3 false st =
+    rtbLoop true [a, b, c] 3 false st =
       (let s1 := removeDirFiles [a, b, c] st
        let s2 := if hasSubDirs [a, b, c] s1.tree then s1 else removeDirFiles [a, b, c] s1
-       let s3 := removeSubDir [a, b, c] s2
+       let s3 := removeSubDir true [a, b, c] s2
        let r4 : St × Bool := if hasSubDirs [a, b] s3.tree then (s3, false) else (removeDirFiles [a, b] s3, true)
-       let r5 : St × Bool := if r4.2 then (removeSubDir [a, b] r4.1, false) else (r4.1, false)
+       let r5 : St × Bool := if r4.2 then (removeSubDir true [a, b] r4.1, false) else (r4.1, false)
        if hasSubDirs [a] r5.1.tree then r5 else (removeDirFiles [a] r5.1, true)) := by
   simp only [rtbLoop, List.length_cons, List.length_nil, List.take]
   simp
   split <;> split <;> simp_all
 
+/-- remove `p` from disk (possibly twice) and then from the catalog: the invariant is kept -/
+theorem Inv_destroy_level {st : St} (I : Inv st) {p : Path} (hp : p ≠ []) (twice : Bool) :
+    Inv (removeSubDir true p (if twice then removeDirFiles p (removeDirFiles p st) else removeDirFiles p st)) := by
+  have e : (if twice then removeDirFiles p (removeDirFiles p st) else removeDirFiles p st) = removeDirFiles p st := by
+    cases twice <;> simp [removeDirFiles, removeAll_idem]
+  rw [e, removeSubDir_deep_eq (st := removeDirFiles p st) I.stale]
+  exact Inv_rmBoth I hp
+
+
+theorem rmBoth_eq {st : St} (hs : st.stale = []) (p : Path) :
+    removeSubDir true p (removeDirFiles p st) = ⟨removeAll p st.tree, [], removeAll p st.disk⟩ :=
+  removeSubDir_deep_eq (st := removeDirFiles p st) hs
+
 theorem removeTimeBucket_inv {items : List String} {st st' : St} {res : Res}
-    (I : Inv st) (h3 : items.length = 3) (h : removeTimeBucket items st = (st', res)) : Inv st' := by
-  match items, h3 with
-  | [a, b, c], _ =>
-    unfold removeTimeBucket at h
-    simp only [List.isEmpty_cons, Bool.false_eq_true, if_false, List.length_cons, List.length_nil] at h
-    by_cases hw : walkOK st.tree [a, b, c] 3 = true
+    (I : Inv st) (h : removeTimeBucket true items st = (st', res)) : Inv st' := by
+  unfold removeTimeBucket at h
+  by_cases he : items.isEmpty = true
+  · simp only [he, if_true] at h; injection h with h _; rw [← h]; exact I
+  · simp only [he, Bool.false_eq_true, if_false] at h
+    by_cases hw : walkOK st.tree items items.length = true
     · simp only [hw, Bool.not_true, Bool.false_eq_true, if_false] at h
-      have hab : (find [a, b] st.tree).isSome = true := by
-        simp [walkOK] at hw; exact hw.2.1
-      rw [rtb3] at h
-      -- level 2
-      have e2 : (if hasSubDirs [a, b, c] (removeDirFiles [a, b, c] st).tree then removeDirFiles [a, b, c] st
-          else removeDirFiles [a, b, c] (removeDirFiles [a, b, c] st)) = removeDirFiles [a, b, c] st := by
-        split
-        · rfl
-        · simp [removeDirFiles, removeAll_idem]
-      have hb3 : ∀ q, isPre [a, b, c] q = true → q ≠ [a, b, c] → find q st.tree = none := by
-        intro q hq hne
-        cases hf : find q st.tree with
-        | none => rfl
-        | some r =>
-          exfalso
-          rw [I.same] at hf
-          have := I.wf.depth q r hf
-          obtain ⟨t, rfl⟩ := (isPre_iff _ _).1 hq
-          cases t with
-          | nil => simp at hne
-          | cons x t => simp at this
-      obtain ⟨s3, hs3⟩ : ∃ s3 : St, s3 = ⟨removeAll [a, b, c] st.tree, [], removeAll [a, b, c] st.disk⟩ :=
-        ⟨_, rfl⟩
-      have e3 : removeSubDir [a, b, c] (removeDirFiles [a, b, c] st) = s3 := by
-        rw [hs3]; exact removeSubDir_eq (st := removeDirFiles [a, b, c] st) I.stale hb3
-      have I3 : Inv s3 := by rw [hs3]; exact Inv_rmBoth I (by simp)
-      simp only [e2, e3] at h
-      have hab3 : (find [a, b] s3.tree).isSome = true := by
-        rw [hs3]; simp only; rw [find_removeAll]; simpa [isPre] using hab
-      clear hs3
-      by_cases h4 : hasSubDirs [a, b] s3.tree = true
-      · have h1 : hasSubDirs [a] s3.tree = true :=
-          (hasSubDirs_iff _ _).2 ⟨[a, b], rfl, by simp [isPre], hab3⟩
-        simp [h4, h1] at h
-        rw [← h.1]; exact I3
-      · have h4' : hasSubDirs [a, b] s3.tree = false := by simpa using h4
-        obtain ⟨s5, hs5⟩ : ∃ s5 : St, s5 = ⟨removeAll [a, b] s3.tree, [], removeAll [a, b] s3.disk⟩ := ⟨_, rfl⟩
-        have e5 : removeSubDir [a, b] (removeDirFiles [a, b] s3) = s5 := by
-          rw [hs5]; exact removeSubDir_eq (st := removeDirFiles [a, b] s3) I3.stale (no_strict_below I3 h4')
-        have I5 : Inv s5 := by rw [hs5]; exact Inv_rmBoth I3 (by simp)
-        clear hs5
-        simp only [h4', Bool.false_eq_true, if_false, if_true, e5] at h
-        by_cases h6 : hasSubDirs [a] s5.tree = true
-        · simp [h6] at h
-          rw [← h.1]; exact I5
-        · have h6' : hasSubDirs [a] s5.tree = false := by simpa using h6
-          simp only [h6', Bool.false_eq_true, if_false, if_true, List.take] at h
-          have e7 : removeSubDir [a] (removeDirFiles [a] (removeDirFiles [a] s5))
-              = ⟨removeAll [a] s5.tree, [], removeAll [a] s5.disk⟩ := by
-            have : removeDirFiles [a] (removeDirFiles [a] s5) = removeDirFiles [a] s5 := by
+      have hfind := walkOK_find st.tree items items.length hw
+      match items, he, hfind with
+      | [a], _, _ =>
+        simp only [List.length_cons, List.length_nil, Nat.zero_add] at h
+        rw [rtb1] at h
+        simp only [List.take] at h
+        have I1 : Inv ⟨removeAll [a] st.tree, [], removeAll [a] st.disk⟩ := Inv_rmBoth I (by simp)
+        have e1 : removeSubDir true [a] (removeDirFiles [a] (removeDirFiles [a] st))
+            = ⟨removeAll [a] st.tree, [], removeAll [a] st.disk⟩ := by
+          have : removeDirFiles [a] (removeDirFiles [a] st) = removeDirFiles [a] st := by
+            simp [removeDirFiles, removeAll_idem]
+          rw [this]; exact rmBoth_eq I.stale [a]
+        have e2 : removeSubDir true [a] (removeDirFiles [a] (removeDirFiles [a] (removeDirFiles [a] st)))
+            = ⟨removeAll [a] st.tree, [], removeAll [a] st.disk⟩ := by
+          have : removeDirFiles [a] (removeDirFiles [a] (removeDirFiles [a] st)) = removeDirFiles [a] st := by
+            simp [removeDirFiles, removeAll_idem]
+          rw [this]; exact rmBoth_eq I.stale [a]
+        split at h <;> simp only [if_true, e1, e2] at h <;> (injection h with h _; rw [← h]; exact I1)
+      | [a, b], _, hfind =>
+        simp only [List.length_cons, List.length_nil, Nat.zero_add, Nat.reduceAdd] at h
+        rw [rtb2] at h
+        have e2 : (if hasSubDirs [a, b] (removeDirFiles [a, b] st).tree then removeDirFiles [a, b] st
+            else removeDirFiles [a, b] (removeDirFiles [a, b] st)) = removeDirFiles [a, b] st := by
+          split
+          · rfl
+          · simp [removeDirFiles, removeAll_idem]
+        obtain ⟨s3, hs3⟩ : ∃ s3 : St, s3 = ⟨removeAll [a, b] st.tree, [], removeAll [a, b] st.disk⟩ := ⟨_, rfl⟩
+        have e3 : removeSubDir true [a, b] (removeDirFiles [a, b] st) = s3 := by
+          rw [hs3]; exact rmBoth_eq I.stale [a, b]
+        have I3 : Inv s3 := by rw [hs3]; exact Inv_rmBoth I (by simp)
+        clear hs3
+        simp only [e2, e3, List.take] at h
+        by_cases h4 : hasSubDirs [a] s3.tree = true
+        · simp [h4] at h; rw [← h.1]; exact I3
+        · have h4' : hasSubDirs [a] s3.tree = false := by simpa using h4
+          simp only [h4', Bool.false_eq_true, if_false, if_true] at h
+          have e5 : removeSubDir true [a] (removeDirFiles [a] (removeDirFiles [a] s3))
+              = ⟨removeAll [a] s3.tree, [], removeAll [a] s3.disk⟩ := by
+            have : removeDirFiles [a] (removeDirFiles [a] s3) = removeDirFiles [a] s3 := by
               simp [removeDirFiles, removeAll_idem]
-            rw [this]
-            exact removeSubDir_eq (st := removeDirFiles [a] s5) I5.stale (no_strict_below I5 h6')
-          rw [e7] at h
-          injection h with h1 _
-          rw [← h1]; exact Inv_rmBoth I5 (by simp)
+            rw [this]; exact rmBoth_eq I3.stale [a]
+          rw [e5] at h
+          injection h with h _; rw [← h]; exact Inv_rmBoth I3 (by simp)
+      | [a, b, c], _, hfind =>
+        have hab : (find [a, b] st.tree).isSome = true := by simpa using hfind 1 (by simp)
+        simp only [List.length_cons, List.length_nil, Nat.zero_add, Nat.reduceAdd] at h
+        rw [rtb3] at h
+        have e2 : (if hasSubDirs [a, b, c] (removeDirFiles [a, b, c] st).tree then removeDirFiles [a, b, c] st
+            else removeDirFiles [a, b, c] (removeDirFiles [a, b, c] st)) = removeDirFiles [a, b, c] st := by
+          split
+          · rfl
+          · simp [removeDirFiles, removeAll_idem]
+        obtain ⟨s3, hs3⟩ : ∃ s3 : St, s3 = ⟨removeAll [a, b, c] st.tree, [], removeAll [a, b, c] st.disk⟩ :=
+          ⟨_, rfl⟩
+        have e3 : removeSubDir true [a, b, c] (removeDirFiles [a, b, c] st) = s3 := by
+          rw [hs3]; exact rmBoth_eq I.stale [a, b, c]
+        have I3 : Inv s3 := by rw [hs3]; exact Inv_rmBoth I (by simp)
+        simp only [e2, e3] at h
+        have hab3 : (find [a, b] s3.tree).isSome = true := by
+          rw [hs3]; simp only; rw [find_removeAll]; simpa [isPre] using hab
+        clear hs3
+        by_cases h4 : hasSubDirs [a, b] s3.tree = true
+        · have h1 : hasSubDirs [a] s3.tree = true :=
+            (hasSubDirs_iff _ _).2 ⟨[a, b], rfl, by simp [isPre], hab3⟩
+          simp [h4, h1] at h
+          rw [← h.1]; exact I3
+        · have h4' : hasSubDirs [a, b] s3.tree = false := by simpa using h4
+          obtain ⟨s5, hs5⟩ : ∃ s5 : St, s5 = ⟨removeAll [a, b] s3.tree, [], removeAll [a, b] s3.disk⟩ := ⟨_, rfl⟩
+          have e5 : removeSubDir true [a, b] (removeDirFiles [a, b] s3) = s5 := by
+            rw [hs5]; exact rmBoth_eq I3.stale [a, b]
+          have I5 : Inv s5 := by rw [hs5]; exact Inv_rmBoth I3 (by simp)
+          clear hs5
+          simp only [h4', Bool.false_eq_true, if_false, if_true, e5] at h
+          by_cases h6 : hasSubDirs [a] s5.tree = true
+          · simp [h6] at h
+            rw [← h.1]; exact I5
+          · have h6' : hasSubDirs [a] s5.tree = false := by simpa using h6
+            simp only [h6', Bool.false_eq_true, if_false, if_true, List.take] at h
+            have e7 : removeSubDir true [a] (removeDirFiles [a] (removeDirFiles [a] s5))
+                = ⟨removeAll [a] s5.tree, [], removeAll [a] s5.disk⟩ := by
+              have : removeDirFiles [a] (removeDirFiles [a] s5) = removeDirFiles [a] s5 := by
+                simp [removeDirFiles, removeAll_idem]
+              rw [this]; exact rmBoth_eq I5.stale [a]
+            rw [e7] at h
+            injection h with h1 _
+            rw [← h1]; exact Inv_rmBoth I5 (by simp)
+      | a :: b :: c :: e :: rest, _, hfind =>
+        exfalso
+        have h4 := hfind 3 (by simp)
+        obtain ⟨r, hr⟩ := Option.isSome_iff_exists.1 h4
+        rw [I.same] at hr
+        have := I.wf.depth _ r hr
+        simp at this
     · simp [hw] at h
       rw [← h.1]; exact I
+
 
 /-! ## writes, creates, histories -/
 
@@ -990,10 +1144,10 @@ theorem writeYears_inv (p : Path) (years : List Int) : ∀ (cur : Int) (st st' :
         · exact ih _ _ _ _ I1 h
         all_goals (injection h with h1 _; rw [← h1]; exact I1)
 
-theorem addTimeBucket_res {items cats : List String} {y : Int} {sch : Nat} {st st' : St} {res : Res}
-    (h : addTimeBucket items cats y sch st = (st', res)) :
+theorem addTimeBucketBody_res {items cats : List String} {y : Int} {sch : Nat} {st st' : St} {res : Res}
+    (h : addTimeBucketBody items cats y sch st = (st', res)) :
     res = .ok ∨ res = .exists_ ∨ res = .catMismatch ∨ res = .panicIndex := by
-  unfold addTimeBucket at h
+  unfold addTimeBucketBody at h
   cases hl : atbLoop [] items cats st.disk with
   | mk d1 oe =>
     cases oe with
@@ -1014,25 +1168,23 @@ theorem addTimeBucket_res {items cats : List String} {y : Int} {sch : Nat} {st s
           simp only [hc] at h
           split at h <;> (injection h with _ h2; subst h2; simp)
 
-/-- results that mean "a bucket creation failed after it had begun to make directories" -/
-def Res.midway (r : Res) : Prop := r = .catMismatch ∨ r = .panicIndex ∨ r = .notInCatalog
+theorem restart_inv {st : St} (I : Inv st) : Inv (restart st) where
+  same := fun p => find_load_wf I.wf p
+  stale := rfl
+  wf := I.wf
 
-theorem create_inv {items cats : List String} {now : Int} {sch : Nat} {st st' : St} {res : Res}
-    (I : Inv st) (h3 : items.length = 3) (h : create items cats now sch st = (st', res))
-    (hm : ¬ res.midway) : Inv st' := by
+
+theorem create_inv {v : Variant} {items cats : List String} {now : Int} {sch : Nat} {st st' : St} {res : Res}
+    (I : Inv st) (hv : v.checkFirst = true) (h3 : items.length = 3)
+    (h : create v items cats now sch st = (st', res)) : Inv st' := by
   unfold create at h
   cases hg : getTimeFrame items cats <;> simp only [hg] at h
-  case ok =>
-    rcases addTimeBucket_res h with hr | hr | hr | hr
-    · exact addTimeBucket_inv I h3 h (Or.inl hr)
-    · exact addTimeBucket_inv I h3 h (Or.inr hr)
-    · exact absurd (Or.inl hr) hm
-    · exact absurd (Or.inr (Or.inl hr)) hm
+  case ok => exact addTimeBucket_inv I hv h3 h
   all_goals (injection h with h1 _; rw [← h1]; exact I)
 
-theorem write_inv {items : List String} {sch : Nat} {years : List Int} {st st' : St} {res : Res}
-    (I : Inv st) (h3 : items.length = 3) (h : write items sch years st = (st', res))
-    (hm : ¬ res.midway) : Inv st' := by
+theorem write_inv {v : Variant} {items : List String} {sch : Nat} {years : List Int} {st st' : St} {res : Res}
+    (I : Inv st) (hv : v.checkFirst = true) (h3 : items.length = 3)
+    (h : write v items sch years st = (st', res)) : Inv st' := by
   unfold write at h
   cases hg : getTimeFrame items defaultCats <;> simp only [hg] at h
   case ok =>
@@ -1048,49 +1200,45 @@ theorem write_inv {items : List String} {sch : Nat} {years : List Int} {st st' :
       cases years with
       | nil => injection h with h1 _; rw [← h1]; exact I
       | cons y0 ys =>
-        cases ha : addTimeBucket items defaultCats y0 sch st with
+        cases ha : addTimeBucket v items defaultCats y0 sch st with
         | mk st1 r1 =>
+          have I1 := addTimeBucket_inv I hv h3 ha
           simp only [ha] at h
-          rcases addTimeBucket_res ha with hr | hr | hr | hr <;> subst hr <;> simp only at h
-          · exact writeYears_inv _ _ _ _ _ _ (addTimeBucket_inv I h3 ha (Or.inl rfl)) h
-          · exact writeYears_inv _ _ _ _ _ _ (addTimeBucket_inv I h3 ha (Or.inr rfl)) h
-          · injection h with _ h2; exact absurd (Or.inr (Or.inr h2.symm)) hm
-          · injection h with _ h2; exact absurd (Or.inr (Or.inl h2.symm)) hm
+          cases r1 <;> simp only at h
+          case ok => exact writeYears_inv _ _ _ _ _ _ I1 h
+          case exists_ => exact writeYears_inv _ _ _ _ _ _ I1 h
+          all_goals (injection h with h1 _; rw [← h1]; exact I1)
   all_goals (injection h with h1 _; rw [← h1]; exact I)
 
-theorem restart_inv {st : St} (I : Inv st) : Inv (restart st) where
-  same := fun p => find_load_wf I.wf p
-  stale := rfl
-  wf := I.wf
-
-/-- the class of operations covered by the sequential theorem: bucket keys have three items -/
-def Op.key3 : Op → Prop
+/-- the key space of the property: bucket keys are Symbol/Timeframe/AttributeGroup (three items);
+    Destroy may be given any key -/
+def Op.keyOK : Op → Prop
   | .create items _ _ => items.length = 3
   | .write items _ _ => items.length = 3
-  | .destroy items => items.length = 3
+  | .destroy _ => True
   | .restart => True
 
-instance (op : Op) : Decidable op.key3 := by
-  cases op <;> simp only [Op.key3] <;> infer_instance
+instance (op : Op) : Decidable op.keyOK := by
+  cases op <;> simp only [Op.keyOK] <;> infer_instance
 
-theorem step_inv {now : Int} {st : St} {op : Op} (I : Inv st) (hk : op.key3)
-    (hm : ¬ (step now st op).2.midway) : Inv (step now st op).1 := by
+theorem step_inv {v : Variant} {now : Int} {st : St} {op : Op} (hd : v.deepDelete = true)
+    (hc : v.checkFirst = true) (I : Inv st) (hk : op.keyOK) : Inv (step v now st op).1 := by
   cases op with
-  | create items cats sch => exact create_inv (st' := (step now st (.create items cats sch)).1) I hk rfl hm
-  | write items sch years => exact write_inv (st' := (step now st (.write items sch years)).1) I hk rfl hm
-  | destroy items => exact removeTimeBucket_inv (st' := (step now st (.destroy items)).1) (res := (step now st (.destroy items)).2) I hk rfl
+  | create items cats sch => exact create_inv (st' := (step v now st (.create items cats sch)).1) I hc hk rfl
+  | write items sch years => exact write_inv (st' := (step v now st (.write items sch years)).1) I hc hk rfl
+  | destroy items =>
+    have : step v now st (.destroy items) = removeTimeBucket true items st := by simp [step, hd]
+    exact removeTimeBucket_inv (st' := (step v now st (.destroy items)).1)
+      (res := (step v now st (.destroy items)).2) I (by rw [← this])
   | restart => exact restart_inv I
 
-theorem run_inv (now : Int) (ops : List Op) : ∀ st, Inv st → (∀ op ∈ ops, op.key3) →
-    (∀ r ∈ results now st ops, ¬ r.midway) → Inv (run now st ops) := by
+theorem run_inv {v : Variant} (hd : v.deepDelete = true) (hc : v.checkFirst = true) (now : Int)
+    (ops : List Op) : ∀ st, Inv st → (∀ op ∈ ops, op.keyOK) → Inv (run v now st ops) := by
   induction ops with
-  | nil => intro st I _ _; exact I
+  | nil => intro st I _; exact I
   | cons op ops ih =>
-    intro st I hk hm
+    intro st I hk
     simp only [run]
-    apply ih
-    · exact step_inv I (hk op (by simp)) (hm _ (by simp [results]))
-    · intro o ho; exact hk o (by simp [ho])
-    · intro r hr; exact hm r (by simp [results, hr])
+    exact ih _ (step_inv hd hc I (hk op (by simp))) (fun o ho => hk o (by simp [ho]))
 
 end Mkts.Catalog
